@@ -63,8 +63,8 @@ ASSUMPTIONS = [
     "level S: cv.vhdl is the trusted simulator; static errors of the emitted VHDL are blocked_by_static (owned by C06), "
     "constructs outside its subset are blocked; a VHDL run-time error or an undefined ('U'/'X') output for a defined "
     "input is a violation with its own signature",
-    "levels T and S are sampled (a third / two thirds of the generated types with <= 30/24 leaf members, an eighth / "
-    "a quarter of the catalogue, every BitField) because one traced compile costs 0.3-5 s; level P runs on every case",
+    "levels T and S are sampled (a quarter / half of the generated types with <= 30/24 leaf members, an eighth / "
+    "a fifth of the catalogue, every BitField and template pair) because one traced compile costs 0.3-5 s; level P runs on every case",
     "a cohdl exception at any step is `rejected` for that step, never a violation",
 ]
 LEVEL = "exploration"
@@ -75,7 +75,7 @@ T_BUDGET = 12  # leaf-observations budget per traced compile (tracing costs 0.1-
 # ---------------------------------------------------------------------------------- plan
 def plan(tier):
     if tier == "quick":
-        n_t, per_t, n_b, per_b, n_c = 11, 36, 2, 22, 3
+        n_t, per_t, n_b, per_b, n_c = 11, 32, 2, 16, 3
     else:
         n_t, per_t, n_b, per_b, n_c = 56, 260, 8, 400, 8
     shards = [{"kind": "hyp", "name": f"type{i}", "examples": per_t, "what": "type"} for i in range(n_t)]
@@ -713,12 +713,12 @@ def _check_type_inner(case):
         out.labels.append("P_ok")
         chk.count("cases.P." + _top(spec))
         # tracing costs 0.1-0.7 s per leaf member and pattern (level P: ~1 ms): level T runs on a
-        # hash-selected third of the generated types (an eighth of the catalogue), level S (one compile,
-        # simulation itself is cheap: every pattern of the P list) on two thirds (a quarter)
+        # hash-selected quarter of the generated types (an eighth of the catalogue), level S (one compile,
+        # simulation itself is cheap: every pattern of the P list) on half of them (a fifth)
         nleaf = len(chk.table)
         h = int(out.identity, 16)
-        do_t = nleaf <= 30 and (h % 8 == 0 if case.get("catalog") else h % 3 == 0)
-        do_s = nleaf <= 24 and (h % 4 == 0 if case.get("catalog") else h % 3 != 2)
+        do_t = nleaf <= 30 and (h % 8 == 0 if case.get("catalog") else h % 4 == 0)
+        do_s = nleaf <= 24 and (h % 5 == 0 if case.get("catalog") else h % 2 == 0)
         if case.get("force_ts"):
             do_s = nleaf <= 40
             do_t = do_s and case["force_ts"] == "ts"
